@@ -282,6 +282,18 @@ example : readRawBlock rdLE ((withTrailer rdLE [1, 2, 3]).set 1 9) ⟨0, 3⟩ tr
 example : readRawBlock (fun bs => bs.length % 7) ((withTrailer (fun bs => bs.length % 7) [1, 2, 3]).set 1 9) ⟨0, 3⟩ true
     = some [1, 9, 3] := by decide
 
+/-! ## compressed blocks (reader side; executable model only, tied by the differential) -/
+
+-- literal "ab", then an overlapping copy (offset 2, length 8): "ababababab"
+example : Snappy.decode [10, 4, 97, 98, 17, 2] = some [97, 98, 97, 98, 97, 98, 97, 98, 97, 98] := by decide
+
+-- a stated length that the elements do not fill is an error
+example : Snappy.decode [11, 4, 97, 98, 17, 2] = none := by decide
+
+-- `readRawBlock` decodes a block whose type byte says snappy (toy checksum as in `exCfg`)
+example : readRawBlock (fun bs => bs.length % 7) ([10, 4, 97, 98, 17, 2] ++ [1] ++ le32 0) ⟨0, 6⟩ true
+    = some [97, 98, 97, 98, 97, 98, 97, 98, 97, 98] := by decide
+
 end GoLevel.C13
 
 /-- the property theorems of C13 -/
